@@ -212,6 +212,10 @@ scpi_bool_t SCPI_Parse(scpi_t * context, char * data, int len) {
         if (state->programHeader.type == SCPI_TOKEN_INVALID) {
             SCPI_ErrorPush(context, SCPI_ERROR_INVALID_CHARACTER);
             result = FALSE;
+        } else if (state->programHeader.len > 0 && state->numberOfParameters < 0) {
+            /* program data ends with separator */
+            SCPI_ErrorPush(context, SCPI_ERROR_INVALID_SEPARATOR);
+            result = FALSE;
         } else if (state->programHeader.len > 0) {
 
             composeCompoundCommand(&cmd_prev, &state->programHeader);
@@ -1416,7 +1420,8 @@ int scpiParser_parseAllProgramData(lex_state_t * state, scpi_token_t * token, in
         } else {
             token->type = SCPI_TOKEN_UNKNOWN;
             token->len = 0;
-            paramCount = -1;
+            /* no data at all is valid, separator without following data is not */
+            paramCount = (paramCount == 0) ? 0 : -1;
             break;
         }
         paramCount++;
